@@ -216,6 +216,7 @@ h("C13", "c13::c13_structure_s1", tier="thorough", funcs=CFM, space="1 segment x
 h("C13", "c13::c13_structure_s2", tier="probe", funcs=CFM, space="2 segments x 360 azimuths; zones (1,0,2)", bounds="S = 2; unwind 362", mfs=16384, mem=40, timeout=21600)
 h("C13", "c13::c13_truncated", tier="probe", funcs=CFM, space="one declared segment, zero zone counts, every cut point 0..=726", bounds="unwind 362", mfs=16384, mem=24, timeout=10800, unwind_is_violation=True)
 h("C04", "c04::c04_type31_one_block_free", tier="probe", funcs=["decode_digital_radar_data", "Message::radial", "GenericDataBlock::new"], space="all 2^(8*74) 76-byte inputs with block count 1: pointer, block type/name, gates, word size free", bounds="fixed length 76, 1 block; unwind 12", mem=16, mfs=128, unwind_is_violation=True, timeout=2400)
+h("C07", "c07::c07_zero_gate_moment_stays_present", funcs=["Message::radial", "Message::into_radial", "GenericDataBlock::{moment_data,into_moment_data}", "MomentData::values"], space="REF (0 gates, 8-bit), VEL (1 gate, any raw byte), PHI (0 gates, 16-bit) present; other header fields symbolic", bounds="concrete presence pattern; unwind 9", mfs=4096, mem=10, timeout=1800)
 h("C07", "c07::c07_collection_time_beyond_24h_window", funcs=["Message::radial", "digital_radar_data::Header::date_time", "util::get_datetime"], space="time-of-day field in 86,400,000..=86,465,535 on a fixed date", bounds="no loop; complete over the stated window", mem=12, timeout=1800)
 h("C07", "c07::c07_collection_time_beyond_24h", tier="thorough", funcs=["Message::radial", "digital_radar_data::Header::date_time", "util::get_datetime"], space="every time-of-day field in 86,400,000..=u32::MAX on a fixed date", bounds="no loop; complete over the stated domain", mem=12, timeout=1800)
 h("C07", "z::c07_value_formula", kind="z", script="smt/z_c07.py", funcs=["GenericDataBlock::scaled_value (MIR)", "MomentData::value_of (MIR)"], space="all 2^16 raw gate values x all finite f32 scale x all finite f32 offset (levels: every f32 bit pattern)", bounds="loop-free closures: no bound; QF_FP, z3 and cvc5 must agree", mem=6, timeout=1200)
